@@ -27,6 +27,9 @@ struct cfg {
   int silent_from; /* >=0: datagrams with id >= this towards the requester's peer are lost for ever (abandonment) */
   int two;         /* two concurrent transfers on the session (different tokens) */
   int allow_dup;
+  int sep;         /* the peer answers with separate responses: every piggybacked response of the server reaches the client as an
+                    * Empty ACK followed by a Confirmable response with a message id of the peer's own (RFC 7252 5.2.2), as a slow
+                    * server or a proxy in front of it would do; the client's ACKs of those are consumed by that peer (fault-free only) */
 };
 
 static struct cfg *C;
@@ -327,6 +330,43 @@ submit(int xi) {
   vx_observe("t=%llu SUBMIT xfer=%d -> %d", (unsigned long long)ns_now(), xi, r);
 }
 
+/* the separate-response peer (C->sep): rewrite the datagram at the head of the network if it is a piggybacked response of the
+ * server, swallow the client's acknowledgements of the peer's own Confirmables.  Returns 1 if it consumed the head. */
+static uint16_t sep_mid;
+static int sep_split;
+static int
+sep_peer(void) {
+  if (!C->sep || ns_inflight_count() == 0)
+    return 0;
+  ns_dgram_t *d = ns_inflight(0);
+  if (d->len < 4)
+    return 0;
+  int type = (d->data[0] >> 4) & 3, code = d->data[1], mid = d->data[2] << 8 | d->data[3];
+  if (ns_addr_host(&d->src) == ns_addr_host(&srv_addr) && type == 2 && code != 0 && d->len <= 1400) {
+    uint8_t ack[4] = {0x60, 0, d->data[2], d->data[3]}, sepb[1400];
+    size_t n = d->len;
+    memcpy(sepb, d->data, n);
+    sepb[0] = (uint8_t)((sepb[0] & 0xCF) | 0x00); /* type CON */
+    sepb[2] = (uint8_t)(sep_mid >> 8);
+    sepb[3] = (uint8_t)sep_mid;
+    sep_mid++;
+    sep_split++;
+    vx_observe("   peer: piggybacked response mid=%04x becomes Empty ACK + separate CON mid=%04x", mid, sep_mid - 1);
+    ns_drop(0);
+    void (*keep)(const ns_dgram_t *) = ns_on_send;
+    ns_on_send = NULL; /* not library output */
+    ns_inject_now(&srv_addr, &cli_addr, ack, 4);
+    ns_inject_now(&srv_addr, &cli_addr, sepb, n);
+    ns_on_send = keep;
+    return 1;
+  }
+  if (ns_addr_host(&d->src) == ns_addr_host(&cli_addr) && type == 2 && code == 0 && mid >= 0x7000 && mid < sep_mid) {
+    ns_drop(0); /* the client's ACK of the peer's Confirmable: for the peer, not for the libcoap server behind it */
+    return 1;
+  }
+  return 0;
+}
+
 static int
 may_fault(const ns_dgram_t *d) {
   (void)d;
@@ -350,6 +390,8 @@ step(void) {
         ns_drop(j);
     }
   }
+  if (sep_peer())
+    return 1;
   int nf = ns_inflight_count();
   if (nf > 0)
     ev[n].kind = EV_DELIVER, ev[n++].idx = 0;
@@ -420,6 +462,8 @@ run(void *arg) {
   memset(X, 0, sizeof X);
   release_calls = large_calls = 0;
   dup_taken = drop_taken = 0;
+  sep_mid = 0x7000;
+  sep_split = 0;
   max_dgram = 0;
   ns_on_send = on_send;
   ns_on_deliver = on_deliver;
@@ -590,8 +634,8 @@ static int ncfgs;
 static void
 add(struct cfg c) {
   cfgs = realloc(cfgs, sizeof *cfgs * (size_t)(ncfgs + 1));
-  snprintf(c.name, sizeof c.name, "c09:%s,L=%zu,L2=%zu,cblk=%d,sblk=%d,szx=%d,mtu=%d,single=%d,con=%d,tkl=%d,two=%d,sil=%d,dup=%d,B=%d", dname[c.dir],
-           c.L, c.L2, c.cblk, c.sblk, c.req_szx, c.mtu, c.single, c.con, c.tkl, c.two, c.silent_from, c.allow_dup, c.bound);
+  snprintf(c.name, sizeof c.name, "c09:%s,L=%zu,L2=%zu,cblk=%d,sblk=%d,szx=%d,mtu=%d,single=%d,con=%d,tkl=%d,two=%d,sil=%d,dup=%d%s,B=%d", dname[c.dir],
+           c.L, c.L2, c.cblk, c.sblk, c.req_szx, c.mtu, c.single, c.con, c.tkl, c.two, c.silent_from, c.allow_dup, c.sep ? ",sep" : "", c.bound);
   cfgs[ncfgs++] = c;
 }
 
@@ -630,6 +674,12 @@ main(int argc, char **argv) {
                               .req_szx = szxs[si], .mtu = mtus[mi], .single = single, .con = con, .tkl = (li + mi) % 2 ? 8 : 1, .bound = 0,
                               .silent_from = -1};
               add(c);
+              if (con && mi == 0 && (T || li % 2 == 0)) {
+                /* the same transfer against a peer that answers every request with Empty ACK + separate Confirmable response */
+                c.sep = 1;
+                add(c);
+                c.sep = 0;
+              }
               if ((T || li % 3 == 0) && szxs[si] > 1 && mi == 0) {
                 /* the other side only supports smaller blocks (context max block size): early renegotiation by the peer */
                 c.sblk = bs / 2;
